@@ -26,6 +26,7 @@ def Foreign (newCfg newSim : Nat) : Op → Prop
   | .exec sim _ _ => sim < newSim
   | .foreignRandom _ => True
   | .foreignSeed _ => True
+  | .reseed c _ => c < newCfg
 
 /-- well-formed worlds: indices stored in configs / simulators are in range, and configs created
 before point to generators created before (the model's `step` preserves this) -/
@@ -94,6 +95,19 @@ theorem step_wf (w : World) (op : Op) (h : WF w) : WF (step w op).1 := by
           exact hc c' hcm
   | foreignRandom n => exact ⟨hc, hs⟩
   | foreignSeed s => exact ⟨hc, hs⟩
+  | reseed c seed =>
+    simp only [step]
+    split
+    · refine ⟨?_, ?_⟩
+      · intro c' hcm
+        simp only [List.length_append, List.length_cons, List.length_nil]
+        rcases List.mem_or_eq_of_mem_set hcm with hcm | rfl
+        · have := hc c' hcm; omega
+        · simp
+      · intro s hsm
+        simp only [List.length_set]
+        exact hs s hsm
+    · exact ⟨hc, hs⟩
 
 theorem run_wf (w : World) (ops : List Op) (h : WF w) : WF (run w ops).1 := by
   induction ops generalizing w with
@@ -106,7 +120,8 @@ theorem run_wf (w : World) (ops : List Op) (h : WF w) : WF (run w ops).1 := by
 def Inv (g c s seed : Nat) (w : World) : Prop :=
   w.gens[g]? = some ⟨seed, 0⟩ ∧ w.gens[g + 1]? = some ⟨seed, 0⟩ ∧
   w.cfgs[c + 1]? = some ⟨g, g + 1⟩ ∧ w.sims[s]? = some (c + 1) ∧
-  (∀ i < c, ∀ cfg, w.cfgs[i]? = some cfg → cfg.npGen < g ∧ cfg.pyGen < g) ∧
+  (∀ i < c, ∀ cfg, w.cfgs[i]? = some cfg →
+    cfg.npGen ≠ g ∧ cfg.npGen ≠ g + 1 ∧ cfg.pyGen ≠ g ∧ cfg.pyGen ≠ g + 1) ∧
   (∀ i < s, ∀ k, w.sims[i]? = some k → k < c)
 
 theorem getElem?_append_some {α} (l l' : List α) (i : Nat) (a : α) (h : l[i]? = some a) :
@@ -171,13 +186,33 @@ theorem step_inv (g c s seed : Nat) (w : World) (op : Op) (h : Inv g c s seed w)
           simp only [step, hs1, hc1, hg1]
           have hk := h6 sim hf' k hs1
           have hgi := h5 k hk cfg hc1
-          have hlt : (if py then cfg.pyGen else cfg.npGen) < g := by
+          have hlt : (if py then cfg.pyGen else cfg.npGen) ≠ g ∧
+              (if py then cfg.pyGen else cfg.npGen) ≠ g + 1 := by
             split <;> omega
           refine ⟨?_, ?_, h3, h4, h5, h6⟩
-          · rw [List.getElem?_set_ne (by omega)]; exact h1
-          · rw [List.getElem?_set_ne (by omega)]; exact h2
+          · rw [List.getElem?_set_ne hlt.1]; exact h1
+          · rw [List.getElem?_set_ne hlt.2]; exact h2
   | foreignRandom n => exact ⟨h1, h2, h3, h4, h5, h6⟩
   | foreignSeed s' => exact ⟨h1, h2, h3, h4, h5, h6⟩
+  | reseed c' sd =>
+    have hf' : c' < c := hf
+    simp only [step]
+    split
+    · have hg : g + 1 < w.gens.length := (List.getElem?_eq_some_iff.1 h2).1
+      refine ⟨getElem?_append_some _ _ _ _ h1, getElem?_append_some _ _ _ _ h2, ?_, h4, ?_, h6⟩
+      · simp only
+        rw [List.getElem?_set_ne (by omega)]; exact h3
+      · intro i hi cfg hcfg
+        simp only at hcfg
+        by_cases hic : c' = i
+        · subst hic
+          rw [List.getElem?_set_self (by assumption)] at hcfg
+          cases hcfg
+          simp only
+          omega
+        · rw [List.getElem?_set_ne hic] at hcfg
+          exact h5 i hi cfg hcfg
+    · exact ⟨h1, h2, h3, h4, h5, h6⟩
 
 theorem run_inv (g c s seed : Nat) (w : World) (ops : List Op) (h : Inv g c s seed w)
     (hf : ∀ op ∈ ops, Foreign c s op) : Inv g c s seed (run w ops).1 := by
@@ -203,7 +238,8 @@ theorem create_inv (seed : Nat) (w1 : World) (hw : WF w1) :
   · intro i hi cfg hcfg
     simp only [List.append_assoc] at hcfg
     rw [List.getElem?_append_left hi] at hcfg
-    exact hc cfg (List.mem_of_getElem? hcfg)
+    have := hc cfg (List.mem_of_getElem? hcfg)
+    omega
   · intro i hi k hk
     simp only at hk
     rw [List.getElem?_append_left hi] at hk
@@ -250,6 +286,263 @@ theorem different_seed_different_stream (pre mid : List Op) (s₁ s₂ draws : N
 
 /-- seed 0 is a seed like any other (the former `seed or urandom` treated it as unset) -/
 example : scenario [] 0 [.newConfig none, .foreignSeed 3, .foreignRandom 2] 2 true init = [(0, 0), (0, 1)] := by
+  decide
+
+/-! ## seeding by assignment (`config.seed_sequence = seed`) -/
+
+/-- reachable worlds: well-formed, and simulators own pairwise distinct configs (each `newSim`
+stores a fresh copy, appended at index `cfgs.length`) -/
+def Reach (w : World) : Prop :=
+  WF w ∧ List.Pairwise (· < ·) w.sims
+
+theorem init_reach : Reach init := by
+  refine ⟨⟨?_, ?_⟩, ?_⟩ <;> simp [init]
+
+theorem step_reach (w : World) (op : Op) (h : Reach w) : Reach (step w op).1 := by
+  refine ⟨step_wf w op h.1, ?_⟩
+  obtain ⟨⟨_, hs⟩, hp⟩ := h
+  cases op with
+  | newConfig seed => cases seed <;> exact hp
+  | copyConfig c =>
+    simp only [step]
+    cases hcc : w.cfgs[c]? <;> exact hp
+  | newSim c =>
+    simp only [step]
+    cases hcc : w.cfgs[c]? with
+    | none => exact hp
+    | some cfg =>
+      simp only [List.pairwise_append, List.pairwise_singleton, List.mem_singleton]
+      refine ⟨hp, trivial, ?_⟩
+      intro a ha b hb
+      subst hb
+      exact hs a ha
+  | exec sim draws py =>
+    cases hs1 : w.sims[sim]? with
+    | none => simp only [step, hs1]; exact hp
+    | some c =>
+      cases hc1 : w.cfgs[c]? with
+      | none => simp only [step, hs1, hc1]; exact hp
+      | some cfg =>
+        cases hg1 : w.gens[if py then cfg.pyGen else cfg.npGen]? with
+        | none => simp only [step, hs1, hc1, hg1]; exact hp
+        | some g => simp only [step, hs1, hc1, hg1]; exact hp
+  | foreignRandom n => exact hp
+  | foreignSeed s => exact hp
+  | reseed c seed =>
+    simp only [step]
+    split <;> exact hp
+
+theorem run_reach (w : World) (ops : List Op) (h : Reach w) : Reach (run w ops).1 := by
+  induction ops generalizing w with
+  | nil => exact h
+  | cons op ops ih =>
+    simp only [run]
+    exact ih _ (step_reach w op h)
+
+/-- in a reachable world two different simulators own different configs -/
+theorem sims_inj (w : World) (h : Reach w) (i j k : Nat) (hi : w.sims[i]? = some k)
+    (hj : w.sims[j]? = some k) : i = j := by
+  obtain ⟨hil, hik⟩ := List.getElem?_eq_some_iff.1 hi
+  obtain ⟨hjl, hjk⟩ := List.getElem?_eq_some_iff.1 hj
+  have hp := List.pairwise_iff_getElem.1 h.2
+  rcases Nat.lt_trichotomy i j with hlt | heq | hgt
+  · have := hp i j hil hjl hlt; omega
+  · exact heq
+  · have := hp j i hjl hil hgt; omega
+
+/-- foreign activity after a re-seed of config `c0` (the config of simulator `s0`) -/
+def Foreign2 (c0 s0 : Nat) : Op → Prop
+  | .newConfig _ => True
+  | .copyConfig c => c ≠ c0
+  | .newSim c => c ≠ c0
+  | .exec sim _ _ => sim ≠ s0
+  | .foreignRandom _ => True
+  | .foreignSeed _ => True
+  | .reseed c _ => c ≠ c0
+
+/-- invariant kept by `Foreign2` activity: config `c0` (owned by simulator `s0` only) points to the two
+generators `g`, `g + 1`, both still at the start of the stream of `seed`, and no other config points
+to them -/
+def Inv2 (g c0 s0 seed : Nat) (w : World) : Prop :=
+  w.gens[g]? = some ⟨seed, 0⟩ ∧ w.gens[g + 1]? = some ⟨seed, 0⟩ ∧
+  w.cfgs[c0]? = some ⟨g, g + 1⟩ ∧ w.sims[s0]? = some c0 ∧
+  (∀ i cfg, i ≠ c0 → w.cfgs[i]? = some cfg →
+    cfg.npGen ≠ g ∧ cfg.npGen ≠ g + 1 ∧ cfg.pyGen ≠ g ∧ cfg.pyGen ≠ g + 1) ∧
+  (∀ i k, i ≠ s0 → w.sims[i]? = some k → k ≠ c0)
+
+/-- the assignment establishes the invariant -/
+theorem reseed_inv2 (w : World) (hw : Reach w) (s0 c0 seed : Nat) (hs : w.sims[s0]? = some c0) :
+    Inv2 w.gens.length c0 s0 seed (step w (.reseed c0 seed)).1 := by
+  have hc0 : c0 < w.cfgs.length := hw.1.2 c0 (List.mem_of_getElem? hs)
+  simp only [step, if_pos hc0]
+  refine ⟨?_, ?_, ?_, hs, ?_, ?_⟩
+  · simp
+  · simp
+  · simp only [List.getElem?_set_self hc0]
+  · intro i cfg hi hcfg
+    simp only at hcfg
+    rw [List.getElem?_set_ne (Ne.symm hi)] at hcfg
+    have := hw.1.1 cfg (List.mem_of_getElem? hcfg)
+    omega
+  · intro i k hi hk hkc
+    subst hkc
+    exact hi (sims_inj w hw i s0 k hk hs)
+
+theorem getElem?_append_singleton_cases {α} (l : List α) (a b : α) (i : Nat)
+    (h : (l ++ [a])[i]? = some b) : l[i]? = some b ∨ (i = l.length ∧ b = a) := by
+  by_cases hi : i < l.length
+  · rw [List.getElem?_append_left hi] at h; exact Or.inl h
+  · rw [List.getElem?_append_right (by omega)] at h
+    right
+    have hlen : i - l.length < 1 := by
+      by_contra hcon
+      rw [List.getElem?_eq_none (by simp; omega)] at h
+      cases h
+    have h0 : i - l.length = 0 := by omega
+    rw [h0] at h
+    simp only [List.getElem?_cons_zero, Option.some.injEq] at h
+    exact ⟨by omega, h.symm⟩
+
+theorem step_inv2 (g c0 s0 seed : Nat) (w : World) (op : Op) (h : Inv2 g c0 s0 seed w)
+    (hf : Foreign2 c0 s0 op) : Inv2 g c0 s0 seed (step w op).1 := by
+  obtain ⟨h1, h2, h3, h4, h5, h6⟩ := h
+  have hg : g + 1 < w.gens.length := (List.getElem?_eq_some_iff.1 h2).1
+  have hc0 : c0 < w.cfgs.length := (List.getElem?_eq_some_iff.1 h3).1
+  cases op with
+  | newConfig sd =>
+    cases sd <;>
+    · refine ⟨?_, ?_, ?_, h4, ?_, h6⟩
+      · exact getElem?_append_some _ _ _ _ h1
+      · exact getElem?_append_some _ _ _ _ h2
+      · exact getElem?_append_some _ _ _ _ h3
+      · intro i cfg hi hcfg
+        simp only [step] at hcfg
+        rcases getElem?_append_singleton_cases _ _ _ _ hcfg with hcfg | ⟨_, rfl⟩
+        · exact h5 i cfg hi hcfg
+        · simp only; omega
+  | copyConfig c' =>
+    have hf' : c' ≠ c0 := hf
+    cases hcc : w.cfgs[c']? with
+    | none => simp only [step, hcc]; exact ⟨h1, h2, h3, h4, h5, h6⟩
+    | some cfg0 =>
+      simp only [step, hcc]
+      refine ⟨h1, h2, getElem?_append_some _ _ _ _ h3, h4, ?_, h6⟩
+      intro i cfg hi hcfg
+      simp only at hcfg
+      rcases getElem?_append_singleton_cases _ _ _ _ hcfg with hcfg | ⟨_, rfl⟩
+      · exact h5 i cfg hi hcfg
+      · exact h5 c' cfg hf' hcc
+  | newSim c' =>
+    have hf' : c' ≠ c0 := hf
+    cases hcc : w.cfgs[c']? with
+    | none => simp only [step, hcc]; exact ⟨h1, h2, h3, h4, h5, h6⟩
+    | some cfg0 =>
+      simp only [step, hcc]
+      refine ⟨h1, h2, getElem?_append_some _ _ _ _ h3, getElem?_append_some _ _ _ _ h4, ?_, ?_⟩
+      · intro i cfg hi hcfg
+        simp only at hcfg
+        rcases getElem?_append_singleton_cases _ _ _ _ hcfg with hcfg | ⟨_, rfl⟩
+        · exact h5 i cfg hi hcfg
+        · exact h5 c' cfg hf' hcc
+      · intro i k hi hk
+        simp only at hk
+        rcases getElem?_append_singleton_cases _ _ _ _ hk with hk | ⟨_, rfl⟩
+        · exact h6 i k hi hk
+        · omega
+  | exec sim draws py =>
+    have hf' : sim ≠ s0 := hf
+    cases hs1 : w.sims[sim]? with
+    | none => simp only [step, hs1]; exact ⟨h1, h2, h3, h4, h5, h6⟩
+    | some k =>
+      cases hc1 : w.cfgs[k]? with
+      | none => simp only [step, hs1, hc1]; exact ⟨h1, h2, h3, h4, h5, h6⟩
+      | some cfg =>
+        cases hg1 : w.gens[if py then cfg.pyGen else cfg.npGen]? with
+        | none => simp only [step, hs1, hc1, hg1]; exact ⟨h1, h2, h3, h4, h5, h6⟩
+        | some gg =>
+          simp only [step, hs1, hc1, hg1]
+          have hk := h6 sim k hf' hs1
+          have hgi := h5 k cfg hk hc1
+          have hne : (if py then cfg.pyGen else cfg.npGen) ≠ g ∧
+              (if py then cfg.pyGen else cfg.npGen) ≠ g + 1 := by
+            split <;> omega
+          refine ⟨?_, ?_, h3, h4, h5, h6⟩
+          · rw [List.getElem?_set_ne hne.1]; exact h1
+          · rw [List.getElem?_set_ne hne.2]; exact h2
+  | foreignRandom n => exact ⟨h1, h2, h3, h4, h5, h6⟩
+  | foreignSeed s' => exact ⟨h1, h2, h3, h4, h5, h6⟩
+  | reseed c' sd =>
+    have hf' : c' ≠ c0 := hf
+    simp only [step]
+    split
+    · refine ⟨getElem?_append_some _ _ _ _ h1, getElem?_append_some _ _ _ _ h2, ?_, h4, ?_, h6⟩
+      · simp only
+        rw [List.getElem?_set_ne hf']; exact h3
+      · intro i cfg hi hcfg
+        simp only at hcfg
+        by_cases hic : c' = i
+        · subst hic
+          rw [List.getElem?_set_self (by assumption)] at hcfg
+          cases hcfg
+          simp only
+          omega
+        · rw [List.getElem?_set_ne hic] at hcfg
+          exact h5 i cfg hi hcfg
+    · exact ⟨h1, h2, h3, h4, h5, h6⟩
+
+theorem run_inv2 (g c0 s0 seed : Nat) (w : World) (ops : List Op) (h : Inv2 g c0 s0 seed w)
+    (hf : ∀ op ∈ ops, Foreign2 c0 s0 op) : Inv2 g c0 s0 seed (run w ops).1 := by
+  induction ops generalizing w with
+  | nil => exact h
+  | cons op ops ih =>
+    simp only [run]
+    exact ih _ (step_inv2 g c0 s0 seed w op h (hf op (by simp)))
+      (fun o ho => hf o (by simp [ho]))
+
+theorem exec_inv2 (g c0 s0 seed draws : Nat) (py : Bool) (w : World) (h : Inv2 g c0 s0 seed w) :
+    (step w (.exec s0 draws py)).2 = (List.range draws).map (fun i => (seed, i)) := by
+  obtain ⟨h1, h2, h3, h4, _, _⟩ := h
+  cases py <;> simp [step, h4, h3, h1, h2, drawN]
+
+/-- **seeding by assignment**: after `config.seed_sequence = seed` on the config of a simulator, its
+next execution draws exactly the first values of the stream of `seed`, on both the NumPy and the
+Python generator, whatever happened before -/
+theorem reseed_replays (pre mid : List Op) (s0 c0 seed draws : Nat) (py : Bool)
+    (hs : (run init pre).1.sims[s0]? = some c0)
+    (hmid : ∀ op ∈ mid, Foreign2 c0 s0 op) :
+    (step (run (step (run init pre).1 (.reseed c0 seed)).1 mid).1 (.exec s0 draws py)).2
+      = (List.range draws).map (fun i => (seed, i)) := by
+  have hw := run_reach init pre init_reach
+  have hI := run_inv2 _ c0 s0 seed _ mid (reseed_inv2 _ hw s0 c0 seed hs) hmid
+  exact exec_inv2 _ c0 s0 seed draws py _ hI
+
+/-- two simulators seeded by assignment with the same seed draw identical values -/
+theorem reseed_same_seed_same_samples (pre₁ mid₁ pre₂ mid₂ : List Op)
+    (s₁ c₁ s₂ c₂ seed draws : Nat) (py : Bool)
+    (h₁ : (run init pre₁).1.sims[s₁]? = some c₁) (h₂ : (run init pre₂).1.sims[s₂]? = some c₂)
+    (hm₁ : ∀ op ∈ mid₁, Foreign2 c₁ s₁ op) (hm₂ : ∀ op ∈ mid₂, Foreign2 c₂ s₂ op) :
+    (step (run (step (run init pre₁).1 (.reseed c₁ seed)).1 mid₁).1 (.exec s₁ draws py)).2
+      = (step (run (step (run init pre₂).1 (.reseed c₂ seed)).1 mid₂).1 (.exec s₂ draws py)).2 := by
+  rw [reseed_replays pre₁ mid₁ s₁ c₁ seed draws py h₁ hm₁,
+    reseed_replays pre₂ mid₂ s₂ c₂ seed draws py h₂ hm₂]
+
+/-- non-vacuity: a simulator that already sampled (its generators are advanced) is re-seeded by
+assignment; after unrelated activity its next draws start the stream of the new seed afresh -/
+example :
+    (run init [.newConfig none, .newSim 0, .exec 0 3 true]).1.sims[0]? = some 1 ∧
+    (∀ op ∈ [Op.newConfig (some 7), .foreignSeed 3, .copyConfig 0], Foreign2 1 0 op) ∧
+    (step (run (step (run init [.newConfig none, .newSim 0, .exec 0 3 true]).1 (.reseed 1 7)).1
+      [.newConfig (some 7), .foreignSeed 3, .copyConfig 0]).1 (.exec 0 2 true)).2
+      = [(7, 0), (7, 1)] := by
+  refine ⟨by decide, ?_, by decide⟩
+  intro op hop
+  simp only [List.mem_cons, List.not_mem_nil, or_false] at hop
+  rcases hop with rfl | rfl | rfl <;> simp [Foreign2]
+
+/-- before the assignment the same execution would have continued the old stream at position 3 -/
+example :
+    (step (run init [.newConfig none, .newSim 0, .exec 0 3 true]).1 (.exec 0 2 true)).2
+      = [(urandomSeed 0, 3), (urandomSeed 0, 4)] := by
   decide
 
 end Pq.C11
